@@ -18,6 +18,8 @@ raw writes of the worker into the environment sit under the lock (LOCK).
 GRAPH-WHOLE - the graphs that supply the dependencies to the decision are
 the job's own, in the scheduler and inside the backend (never re-bound to a
 pruned / transitively reduced copy).
+BACKEND-STATELESS - an attribute of the backend filled while scheduling is
+reset by execute_tasks (nothing of one run decides in the next).
 ENQ-INPUTS - no argument bound to the decision before the atomic region is
 computed from the environment (no status / clock read hoisted out of it).
 Not decided: equality of the final status map across interleavings as such
@@ -42,6 +44,7 @@ def check(ctx):
     ctx.run(sched_rel.check_graph_whole)
     ctx.run(sched_rel.check_graph_rebound)
     ctx.run(sched_rel.check_decision_inputs)
+    ctx.run(sched_worker.check_backend_stateless)
 
 
 from ..variants import sched as _v   # noqa: E402
